@@ -196,10 +196,10 @@ type c06Case struct {
 	Neutral   int         `json:"neutral_mask,omitempty"`    // family "peers": holders of the same points that provide nothing (bit 0: named to sort first, bit 1: last)
 	Peers     []string    `json:"peer_names,omitempty"`      // family "peers": names of the c6Peer holders ("" = default name)
 	Embedded  bool        `json:"points_in_unexported_embedded_struct,omitempty"`
-	Preset    bool        `json:"fields_preset,omitempty"`  // the all-optional consumer is registered with every field already holding unregistered objects
-	Zero      int         `json:"zero_size_mask,omitempty"` // family "zero-size": which of Z1,Z2,Z3 are registered
+	Preset    bool        `json:"fields_preset,omitempty"`   // the all-optional consumer is registered with every field already holding unregistered objects
+	Zero      int         `json:"zero_size_mask,omitempty"`  // family "zero-size": which of Z1,Z2,Z3 are registered
 	NonStruct int         `json:"non_struct_mask,omitempty"` // family "non-struct": which of *TNum (int64), *TMapT (map) are registered, bit 2: a *TA next to them
-	Sealed    int         `json:"sealed_mask,omitempty"`    // family "sealed": which of TS1,TS2 (implementers of a sealed interface) are registered
+	Sealed    int         `json:"sealed_mask,omitempty"`     // family "sealed": which of TS1,TS2 (implementers of a sealed interface) are registered
 }
 
 func c06Pops(variants [][]string, yield func([]scen.Inst) bool) {
